@@ -496,8 +496,11 @@ class Ctx:
             "violations": len(self.violations),
         }
         if not self.replay:
-            os.makedirs(os.path.join(VERIF, "evidence"), exist_ok=True)
-            with open(os.path.join(VERIF, "evidence", self.prop + ".json"), "w") as fh:
+            # evidence/<id>.json describes runs against /repo itself; a run pointed at another checkout
+            # (VERIF_REPO: scratch worktrees with seeded changes or candidate fixes) is kept apart
+            edir = os.path.join(VERIF, "evidence") if os.path.realpath(REPO) == "/repo" else os.path.join(VERIF, "evidence", "scratch")
+            os.makedirs(edir, exist_ok=True)
+            with open(os.path.join(edir, self.prop + ".json"), "w") as fh:
                 json.dump(ev, fh, indent=1, sort_keys=True, default=str)
         shutil.rmtree(self.tmp, ignore_errors=True)
         for key, (text, n) in sorted(self.known_hits.items()):
